@@ -92,6 +92,10 @@ func goxScenarios() []goxScenario {
 		{Name: "order-by", Loop: true, Files: files, SQL: "SELECT a, g FROM t ORDER BY g, a DESC", CPU: 3},
 		{Name: "having-aggregate", Files: files, SQL: "SELECT g, LISTAGG(a, ',') FROM t GROUP BY g HAVING COUNT(*) > 0 ORDER BY g", CPU: 3},
 		{Name: "analytic", Files: files, SQL: "SELECT a, RANK() OVER (PARTITION BY g ORDER BY a), COUNT(a) OVER (PARTITION BY g), SUM(b) OVER (ORDER BY a) FROM t", CPU: 3},
+		// several analytic functions inside one expression: each sorts the view by its own ORDER BY, so the order in which
+		// they are evaluated decides the order of the result rows
+		{Name: "analytic-functions-in-one-expression", Files: files,
+			SQL: "SELECT a, RANK() OVER (ORDER BY b) * 100 + RANK() OVER (ORDER BY g) * 10 + RANK() OVER (ORDER BY a DESC) FROM t; SELECT a FROM t WHERE a IN (1, 2, 3) ORDER BY RANK() OVER (ORDER BY b) + ROW_NUMBER() OVER (ORDER BY g DESC) + CUME_DIST() OVER (ORDER BY a) + NTILE(2) OVER (ORDER BY b DESC), 1;", CPU: 3},
 		{Name: "user-aggregate-with-row-argument-over-partitions", Files: files,
 			SQL: "DECLARE wsum AGGREGATE (cur, @w, @c) AS BEGIN VAR @s := @c; VAR @v; WHILE @v IN cur DO @s := @s + @v * @w; END WHILE; RETURN @s; END; SELECT a, wsum(b, a, a * 100) OVER (PARTITION BY g) FROM t; SELECT g, wsum(b, 2, 0) FROM t GROUP BY g;", CPU: 3},
 		{Name: "user-function-in-where-and-select", Files: files,
